@@ -1,7 +1,7 @@
 // target: src/sync.rs
 // labels: put.* store.parents.* store.get_exact.* store.prefixes_of.* store.parent_iterator.* store.remove_prefix_filtered.* store.entry_put.records-row
 // tier: quick
-// bound: one author per sequence, keys over {"", a, ab, b, [61 ff], [62]}, two timestamps, entries and deletion markers; every sequence of up to
+// bound: one author per sequence, keys over {"", a, ab, b, [61 ff], a^40 (forty bytes, its prefixes are 39 and 40 bytes shorter)}, two timestamps, entries and deletion markers; every sequence of up to
 // three distinct entries in every order (thorough tier: up to four). Checks C02: the final state is the same for every order and equals the reference
 // (an entry is held iff no other offered entry of the same author at its key or a prefix of it is >= it).
 #[cfg(test)]
@@ -44,7 +44,7 @@ mod verif_rp_c02_order {
         got.sort();
         got
     }
-    fn key_universe() -> Vec<Vec<u8>> { vec![vec![], vec![0x61], vec![0x61, 0x62], vec![0x62], vec![0x61, 0xff]] }
+    fn key_universe() -> Vec<Vec<u8>> { vec![vec![], vec![0x61], vec![0x61, 0x62], vec![0x62], vec![0x61, 0xff], vec![0x61; 40]] }
     fn perms(v: &[E]) -> Vec<Vec<E>> {
         if v.len() <= 1 { return vec![v.to_vec()]; }
         let mut out = vec![];
